@@ -692,6 +692,21 @@ func (sc *SpecCtx) call(x *SX) Val {
 		return sc.fpCall(x, name, args)
 	}
 	switch name {
+	case "uvarintValue", "uvarintRead":
+		// the two results of encoding/binary.Uvarint(b) as the code sees them (the
+		// uninterpreted functions of the buffer contents the extern model uses)
+		need(1)
+		av := sc.eval(args[0])
+		heapOf := func(comp, srt string) Term {
+			if sc.hp != nil {
+				return sc.hp.term(comp, srt)
+			}
+			return vc.heapGet(sc.st, comp, srt)
+		}
+		if name == "uvarintValue" {
+			return Val{Ty: types.Typ[types.Uint64], T: vc.pureApp("encoding/binary.Uvarint.value", []Val{av}, types.Typ[types.Uint64], heapOf)}
+		}
+		return Val{Ty: specInt, T: vc.pureApp("encoding/binary.Uvarint.n", []Val{av}, types.Typ[types.Int], heapOf)}
 	case "result":
 		// result(i, f(args)): the i-th result of a pure package-level function with several
 		// results (the uninterpreted function f#i that replaces the call in code)
